@@ -1,5 +1,6 @@
 import VsbModel.Model.Verify
 import VsbModel.Props.C02
+import VsbModel.Lemmas.LogicalRun
 set_option linter.unusedSectionVars false
 set_option linter.unusedSimpArgs false
 
@@ -274,3 +275,82 @@ example : checkBackups [[some 100], []] 160 (some 60) = .stale 60 := by decide
 example : checkBackups [[some 100], []] 159 (some 60) = .fresh := by decide
 
 end Vsb.Verify
+
+/-! ### Histories of completed runs keep the storage consistent (the part of `runs_keep_consistent` that is true) -/
+namespace Vsb.Restore
+open Vsb.Dedup Vsb.Verify
+variable {H β F : Type} [DecidableEq H] [DecidableEq F]
+
+/-- Every backup of a reachable storage was made by one of the runs of the history, from that run's tree. -/
+theorem history_backups_from_runs (hashOf : List β → H) (ops : List (LOp β F)) (st : LStore β F) :
+    ∀ g ∈ ops.foldl (stepL hashOf) st, ∀ b ∈ g,
+      (∃ g0 ∈ st, b ∈ g0) ∨ ∃ name es fpf mask ng, LOp.run name es fpf mask ng ∈ ops ∧ b.lb.es = es := by
+  induction ops generalizing st with
+  | nil => intro g hg b hb; exact Or.inl ⟨g, hg, hb⟩
+  | cons op ops ih =>
+    intro g hg b hb
+    simp only [List.foldl_cons] at hg
+    rcases ih (stepL hashOf st op) g hg b hb with ⟨g0, hg0, hb0⟩ | ⟨name, es, fpf, mask, ng, hin, hes⟩
+    · -- b is in a group of the storage after `op`
+      cases op with
+      | deleteGroups keep => exact Or.inl ⟨g0, keepMasked_sub st keep g0 hg0, hb0⟩
+      | run name es fpf mask ng =>
+        have hnew : ∀ gg, g0 ∈ st ++ [[runL hashOf gg [] name es fpf]] →
+            (∃ g0 ∈ st, b ∈ g0) ∨ ∃ name' es' fpf' mask' ng', LOp.run name' es' fpf' mask' ng' ∈ LOp.run name es fpf mask ng :: ops ∧ b.lb.es = es' := by
+          intro gg h
+          rcases List.mem_append.mp h with h | h
+          · exact Or.inl ⟨g0, h, hb0⟩
+          · simp only [List.mem_singleton] at h
+            subst h
+            simp only [List.mem_singleton] at hb0
+            subst hb0
+            exact Or.inr ⟨name, es, fpf, mask, ng, by simp, rfl⟩
+        unfold stepL at hg0
+        cases hl : st.getLast? with
+        | none => simp only [hl] at hg0; exact hnew _ hg0
+        | some glast =>
+          cases ng with
+          | true => simp only [hl] at hg0; exact hnew _ hg0
+          | false =>
+            simp only [hl] at hg0
+            rcases List.mem_append.mp hg0 with h | h
+            · exact Or.inl ⟨g0, List.dropLast_subset _ h, hb0⟩
+            · simp only [List.mem_singleton] at h
+              subst h
+              rcases List.mem_append.mp hb0 with h' | h'
+              · exact Or.inl ⟨glast, List.mem_of_getLast? hl, h'⟩
+              · simp only [List.mem_singleton] at h'
+                subst h'
+                exact Or.inr ⟨name, es, fpf, mask, false, by simp, rfl⟩
+    · exact Or.inr ⟨name, es, fpf, mask, ng, List.mem_cons_of_mem _ hin, hes⟩
+
+/-- **runs_keep_consistent_partial.**  Start from an empty storage; apply any history of *completed* runs (each
+appending or opening a new group, any earlier manifests unreadable) and deletions of whole groups, under the
+assumptions of `history_restore_exact`, every run having read at least one regular file.  Then every group of the
+resulting storage passes `BackupGroup::inspect`: every manifest records a file and every non-empty extern record has
+an earlier unique record of its hash in the group.  What the full statement adds and this does not cover: runs that
+die between creating a group directory and publishing (finding F2: the empty group is adopted on a later day and
+verification then complains about its first backup) and runs over trees without any regular file (finding F6) —
+on the current tree the statement is false for those, see `known-findings.json`. -/
+theorem runs_keep_consistent_partial (hashOf : List β → H) (ops : List (LOp β F))
+    (hs : ∀ (pre : List (LOp β F)) (op : LOp β F) (post : List (LOp β F)), ops = pre ++ op :: post →
+        OpSoundL hashOf (pre.foldl (stepL hashOf) []) op)
+    (hfile : ∀ name es fpf mask ng, LOp.run name es fpf mask ng ∈ ops → ∃ p m d, (.file p m d : Entry β) ∈ es) :
+    ∀ g ∈ ops.foldl (stepL hashOf) ([] : LStore β F),
+      inspectGroup (g.map (fun b => ({ recs := recsD hashOf b } : Manifest H F String))) = true := by
+  intro g hg
+  have hinv := history_inv hashOf ops [] (by intro g hg; cases hg) hs g hg
+  have := inspect_ok_of_resolvable (g.map (recsD hashOf)) hinv.2 (by
+    intro rs hrs
+    obtain ⟨b, hb, rfl⟩ := List.mem_map.mp hrs
+    rcases history_backups_from_runs hashOf ops [] g hg b hb with ⟨g0, hg0, _⟩ | ⟨name, es, fpf, mask, ng, hin, hes⟩
+    · cases hg0
+    · obtain ⟨p, m, d, hf⟩ := hfile name es fpf mask ng hin
+      intro hnil
+      have : (⟨decide (d.length ≠ 0) && b.lb.stored p, hashOf d, b.fp p, d.length, keyE (.file p m d : Entry β)⟩ : Rec H F String) ∈ recsD hashOf b :=
+        List.mem_filterMap.mpr ⟨_, by rw [hes]; exact hf, rfl⟩
+      rw [hnil] at this
+      cases this)
+  simpa [List.map_map, Function.comp_def] using this
+
+end Vsb.Restore
